@@ -36,7 +36,7 @@ class C16(Scenario):
     prop = "C16"
     level = "exploration"
     profiles = ["shared", "shared", "control"]
-    budgets = {"quick": 6000, "thorough": 100000}
+    budgets = {"quick": 20000, "thorough": 400000}
     wall_caps = {"quick": 110, "thorough": 1500}
     rule = ("one run = one tree in which one aggregator object S (a seeded sub-tree) occupies two fillable positions: "
             "siblings in Label / UntypedLabel / Index / Branch, cousins under two Selects or two collections, S beside a "
